@@ -28,11 +28,12 @@ that the check compares the real cursor with is exactly the declarative semantic
   on the pattern, `count_One/Many/Seq` for sibling sequences; uses C11's `quantifier_*_sound`).
   The implementation's `Query::capture_quantifiers` is compared with `capQItem` on every case.
 
-Fragment: named nodes, anonymous literals, `(_)`, `_`, `(MISSING …)`, `(ERROR …)`, fields, negated
-fields, children in order, anchors (leading / between / trailing), alternations, quantifiers
-`? * +` on child patterns.  Not in the fragment (cases are skipped as *unsupported*, never
-compared): groups, supertypes `(a/b)`, anchors before quantified items, quantified or
-field-prefixed roots, predicates.  OPEN: extend `Pat` with `group` and `super`.
+Fragment: named nodes, anonymous literals, `(_)`, `_`, `(MISSING …)`, `(ERROR …)`, supertypes `(sup)` /
+`(sup/sub)` (`NodeTest.super`, over the hidden supertype chain `VInfo.sups`), fields, negated fields,
+children in order, anchors (leading / between / trailing), alternations, quantifiers `? * +` on child
+patterns, plain groups among children (spliced by the parser).  Not in the fragment (cases are skipped
+as *unsupported*, never compared): quantified / captured / top-level groups, anchors before quantified
+items, quantified or field-prefixed roots, predicates.
 
 Choices where the docs are silent — the implementation decided (each was a model/implementation
 disagreement that was repaired in the model):
